@@ -37,9 +37,23 @@ FORBIDDEN = re.compile(
 COMMON_TRUSTED = [
     "Lean 4.33.0 kernel (thorough tier: re-checked by leanchecker); Mathlib v4.33.0 as compiled under /opt/veriftools",
     "axioms: only propext, Classical.choice, Quot.sound (audited with #print axioms on every run); no native_decide, bv_decide, sorry, admit or own axioms (textual scan on every run)",
-    "lean/Verif/Py.lean as a description of CPython/NumPy slicing, floor division, searchsorted, cumsum",
+    "lean/Verif/Py.lean as a description of CPython/NumPy slicing, floor division, searchsorted, cumsum, argmax: every definition is proved equal to its declarative element-by-element reading (lean/Verif/PyProps.lean, obligations of every run) and tested against CPython/NumPy on every run; what stays trusted is that Python means what that reading says",
     "the hand-written executable model lean/Verif/Model/<id>.lean is tied to /repo only by this run's correspondence check (sampled: corpus + exhaustive small scope + seeded random cases), not by a translator",
     "Lean compiler + C toolchain: the compiled driver runs the same definitions the theorems are about",
+]
+
+
+# Specification theorems of the Python/NumPy prelude (lean/Verif/PyProps.lean): every executable definition of
+# Verif/Py.lean equals its declarative reading.  They are proof obligations of every check (each model goes through
+# the prelude), built and audited on every run like the property's own theorems.
+PRELUDE_THEOREMS = [
+    "Verif.PyProps." + t
+    for t in (
+        "floorDiv_mod_identity", "pyMod_range_pos", "pyMod_range_neg", "floorDiv_is_floor_pos", "pyNorm_le", "pyNorm_spec",
+        "pySlice_getElem?", "pySlice_length", "pySlice_infix", "pyIndex_spec", "everyNth_getElem?", "everyNth_length",
+        "pySliceStep_getElem?", "cumsum_spec", "cumsum_length", "cumsum_getElem?", "searchsortedLeft_count",
+        "searchsortedRight_count", "searchsortedLeft_split", "argmaxFirst_spec", "argmaxFirst_nil",
+    )
 ]
 
 
@@ -265,7 +279,7 @@ def audit(prop, theorems):
     os.makedirs(d, exist_ok=True)
     path = os.path.join(d, f"{prop}.lean")
     mine = os.path.join(d, f"{prop}.{os.getpid()}.lean")  # concurrent runs must not clobber each other's file
-    src = f"import Verif.Props.{prop}\n" + "".join(f"#print axioms {t}\n" for t in theorems)
+    src = f"import Verif.Props.{prop}\nimport Verif.PyProps\n" + "".join(f"#print axioms {t}\n" for t in theorems)
     with open(mine, "w") as f:
         f.write(src)
     text = ""
@@ -458,34 +472,35 @@ def main(mod, argv):
 def _main(mod, prop, args, seed, t0):
     tier = args.tier
     # ---- 1. proof obligations
-    ok, log = lake_build([f"Verif.Props.{prop}", "driver"])
+    theorems = list(mod.THEOREMS) + PRELUDE_THEOREMS  # the property's own obligations + the prelude's specification theorems
+    ok, log = lake_build([f"Verif.Props.{prop}", "Verif.PyProps", "driver"])
     build_ok = ok
     ob_status = {}
     audit_text = ""
     if ok:
-        ob_status, audit_text = audit(prop, mod.THEOREMS)
+        ob_status, audit_text = audit(prop, theorems)
     else:
         if "error: Verif/" not in log and "error: ./Verif" not in log and "error:" in log and "Verif" not in log:
             raise InfraError("lake build failed outside Verif sources:\n" + log[-2000:])
-        ob_status = {t: ("bad", "lake build failed") for t in mod.THEOREMS}
+        ob_status = {t: ("bad", "lake build failed") for t in theorems}
     hits = forbidden_scan()
-    checker_cmd = f"cd lean && lake build Verif.Props.{prop} && lake env lean .lake/audit/{prop}.lean  # #print axioms of every obligation; + textual scan for sorry/admit/axiom/native_decide/bv_decide"
+    checker_cmd = f"cd lean && lake build Verif.Props.{prop} Verif.PyProps && lake env lean .lake/audit/{prop}.lean  # #print axioms of every obligation; + textual scan for sorry/admit/axiom/native_decide/bv_decide"
     leanchecker = None
     if build_ok and tier == "thorough":
-        rc, out, err = run(["lake", "env", "leanchecker", f"Verif.Props.{prop}"], cwd=LEAN, timeout=3000)
+        rc, out, err = run(["lake", "env", "leanchecker", f"Verif.Props.{prop}", "Verif.PyProps"], cwd=LEAN, timeout=3000)
         leanchecker = rc == 0
-        checker_cmd += f" && lake env leanchecker Verif.Props.{prop}"
+        checker_cmd += f" && lake env leanchecker Verif.Props.{prop} Verif.PyProps"
         if rc != 0:
-            for t in mod.THEOREMS:
+            for t in theorems:
                 if ob_status.get(t, ("bad",))[0] == "ok":
                     ob_status[t] = ("bad", "leanchecker rejected the module: " + (out + err)[-300:])
     if hits:
-        for t in mod.THEOREMS:
+        for t in theorems:
             if ob_status.get(t, ("bad",))[0] == "ok":
                 ob_status[t] = ("bad", "forbidden token in lean/Verif: " + hits[0])
-    obligations = len(mod.THEOREMS)
-    discharged = sum(1 for t in mod.THEOREMS if ob_status.get(t, ("bad",))[0] == "ok")
-    broken = [t + ": " + ob_status[t][1] for t in mod.THEOREMS if ob_status[t][0] != "ok"]
+    obligations = len(theorems)
+    discharged = sum(1 for t in theorems if ob_status.get(t, ("bad",))[0] == "ok")
+    broken = [t + ": " + ob_status[t][1] for t in theorems if ob_status[t][0] != "ok"]
     if not os.path.exists(DRIVER):
         raise InfraError("driver executable missing after lake build:\n" + log[-1500:])
 
@@ -634,7 +649,7 @@ def _main(mod, prop, args, seed, t0):
     step = max(1, len(results) // 6)
     for r in results[::step][:6]:
         samples.append({"case": clean(r["case"]), "ops": [o[:300] for o in r["ops"][:3]], "impl": [a[:200] for a in r["impl"][:3]], "model": [a[:200] for a in r["model"][:3]]})
-    samples.append({"obligations": mod.THEOREMS})
+    samples.append({"obligations": theorems})
     cov = {
         "obligations": obligations,
         "discharged": discharged,
@@ -642,6 +657,8 @@ def _main(mod, prop, args, seed, t0):
         "trusted_base": COMMON_TRUSTED + list(getattr(mod, "TRUSTED", [])),
         "theorem_axioms": {t: (v[1] if v[0] == "ok" else "NOT DISCHARGED: " + v[1]) for t, v in ob_status.items()},
         "leanchecker": leanchecker,
+        "obligations_property": len(mod.THEOREMS),
+        "obligations_prelude": len(PRELUDE_THEOREMS),
         "evaluations": len(results),
         "distinct_nontrivial": nontrivial,
         "distinct_cases": len(seen),
